@@ -31,6 +31,12 @@ Qed.
 Lemma skipn_nil_length {A} n (l : list A) : skipn n l = [] -> (length l <= n)%nat.
 Proof. intros H. pose proof (skipn_length n l) as E. rewrite H in E. cbn [length] in E. lia. Qed.
 
+Lemma ones_eq bs : ones bs = ones_from 0 bs.
+Proof. reflexivity. Qed.
+
+Lemma clear_below_eq q w : Z.land w (not64 (Mask q)) = clear_below q w.
+Proof. reflexivity. Qed.
+
 Lemma shiftl_6 x : Z.shiftl x 6 = 64 * x.
 Proof. rewrite Z.shiftl_mul_pow2 by lia. change (2 ^ 6) with 64. lia. Qed.
 
@@ -133,16 +139,17 @@ Lemma sel_in_word ws i k w f : sel_state ws i k w f -> Z.of_nat f < popcount w -
     nth_error (all_ones ws) i = Some (64 * Z.of_nat k + off).
 Proof.
   intros (Hk & Hw & Hst) Hf.
-  pose proof (ones_from_bits64_length 0 w Hw) as Hlen. fold (ones (bits 64 w)) in Hlen.
-  destruct (nth_error_exists (ones (bits 64 w)) f ltac:(lia)) as [off Hoff].
+  pose proof (ones_from_bits64_length 0 w Hw) as Hlen.
+  destruct (nth_error_exists (ones_from 0 (bits 64 w)) f ltac:(lia)) as [off Hoff].
+  assert (Hoff' : nth_error (ones (bits 64 w)) f = Some off) by (rewrite ones_eq; exact Hoff).
   exists off. repeat split.
-  - apply select_in_word_spec; [lia|exact Hoff].
+  - apply select_in_word_spec; [lia|exact Hoff'].
   - apply nth_error_In in Hoff. apply ones_from_lb in Hoff. lia.
   - apply nth_error_In in Hoff. apply ones_from_lb in Hoff. rewrite bits_length in Hoff. lia.
-  - exact Hoff.
+  - exact Hoff'.
   - specialize (Hst 0%nat). rewrite !Nat.add_0_r in Hst. rewrite Hst, rest_ones_split.
     apply nth_error_app_Some. rewrite ones_from_shift, nth_error_map.
-    fold (ones (bits 64 w)). rewrite Hoff. reflexivity.
+    rewrite Hoff. reflexivity.
 Qed.
 
 (** * the next-1 scan over the following words *)
@@ -209,7 +216,7 @@ Lemma sel_next ws i k w f off : words_ok ws -> sel_state ws i k w f ->
   if w2 =? 0 then next_one_scan (length ws) ws (Z.of_nat k + 1) (zlen ws) = Some (next_spec ws i)
   else 64 * Z.of_nat k + tz64 w2 = next_spec ws i.
 Proof.
-  intros Hok (Hk & Hw & Hst) Hoff w2.
+  intros Hok (Hk & Hw & Hst) Hoff w2. rewrite ones_eq in Hoff.
   destruct (ones_from_nth_rank _ _ _ _ Hoff) as (Hoff0 & Hcnt & Hbit).
   rewrite Z.sub_0_r in Hcnt, Hbit.
   set (q := Z.to_nat off) in *.
@@ -224,7 +231,7 @@ Proof.
     rewrite (ones_from_firstn_succ b _ q Hbit). f_equal.
     rewrite (ones_from_length_indep b 0). exact Hcnt. }
   assert (Hlenf : (f < length (ones_from b (bits 64 w)))%nat).
-  { rewrite (ones_from_length_indep b 0). apply nth_error_Some. unfold ones in Hoff. congruence. }
+  { rewrite (ones_from_length_indep b 0). apply nth_error_Some. congruence. }
   specialize (Hst 1%nat). replace (i + 1)%nat with (S i) in Hst by lia.
   replace (f + 1)%nat with (S f) in Hst by lia. rewrite rest_ones_split in Hst. fold b in Hst.
   pose proof (clear_below_word (off + 1) w Hw) as Hw2r. fold w2 in Hw2r.
@@ -316,7 +323,7 @@ Proof.
   set (k := Z.to_nat (p / 64)).
   destruct (nth_error_exists ws k ltac:(subst k; lia)) as [w Hw].
   replace (p / 64) with (Z.of_nat k) by (subst k; lia). rewrite nthZ_of_nat, Hw.
-  fold (clear_below (p mod 64) w).
+  rewrite clear_below_eq.
   pose proof (checkpoint_state ws (32 * c) f p w Hok Hp Hw) as Hst. fold k in Hst.
   assert (Ei : Z.to_nat i = (32 * c + f)%nat) by (subst c f; lia).
   rewrite <- Ei in Hst.
@@ -330,7 +337,8 @@ Proof.
   { change 63 with (Z.ones 6). rewrite Z.land_ones by lia. change (2 ^ 6) with 64. lia. }
   assert (Ea6 : Z.shiftr (off + 64 * Z.of_nat k') 6 = Z.of_nat k').
   { rewrite Z.shiftr_div_pow2 by lia. change (2 ^ 6) with 64. lia. }
-  rewrite Ea63, Ea6, not64_MaskUpto. fold (clear_below (off + 1) w').
+  rewrite Ea63, Ea6, not64_MaskUpto.
+  rewrite clear_below_eq.
   pose proof (sel_next ws _ k' w' f' off Hok Hst' Hnth) as Hnext. cbv zeta in Hnext.
   assert (Espec : spec_Select ws i = (64 * Z.of_nat k' + off, next_spec ws (Z.to_nat i))).
   { unfold spec_Select, next_spec. cbv zeta. f_equal.
